@@ -3,4 +3,4 @@ Require Extraction.
 Require Import ExtrOcamlBasic.
 From V Require Import TimbukDefs.
 Extraction "ex_c13.ml" serialize parse wf_desc wf_desc_uniform desc_same desc_strict text_denotes
-  fa_same text_denotes_fa is_fa sub_t sub_b trim words parse_trans_line parse_int show_int.
+  fa_same text_denotes_fa is_fa sub_t sub_b mem_t mem_b same_b trim words parse_trans_line parse_int show_int.
